@@ -1,5 +1,3 @@
-// stub: the check for this property is not built yet
 fn main() {
-    eprintln!("not implemented");
-    std::process::exit(2);
+    vcore::engine::main(c04::property());
 }
